@@ -3,13 +3,19 @@
 (* A sequential state machine, one action per step of the Go code, in the     *)
 (* code's order (auth/authorization_code.go, auth/shared.go, oauthex/*.go):   *)
 (*   Setup, ParseChallenge, FetchPRM(loc), FallbackRootAS, FetchASM(loc),     *)
-(*   PredefinedEndpoints, Register, GetCode, CheckState, CheckIss, Exchange,  *)
-(*   Install, Finish.                                                         *)
+(*   UnreadASM, PredefinedEndpoints, Register, GetCode, CheckState, CheckIss,*)
+(*   Exchange, Install, Finish.                                               *)
 (* The environment chooses, at the step where the code first reads it: the    *)
 (* challenge, the MCP server URL class, the HTTP outcome / document served at *)
 (* every fetch, the registration configuration, the registration response,   *)
 (* the authorization result and the token endpoint outcome.  The choice is a  *)
 (* parameter of the action so that `-dump dot,actionlabels` exports it.       *)
+(* The outcomes at the authorization-server metadata locations are independent *)
+(* of each other: when a fatal outcome at one location ends the discovery, the *)
+(* environment still holds an outcome ready at every LATER location of the    *)
+(* list (UnreadASM: the code as specified never reads them; an implementation  *)
+(* that wrongly goes on does, e.g. "rejected document, then 404 everywhere"    *)
+(* = a server whose metadata failed validation, not a server without metadata).*)
 (*                                                                            *)
 (* URLs are abstracted to classes: "https", "lo" (http on a loopback host),   *)
 (* "http" (http on any other host), "js"/"data"/"vbs" (script-capable).       *)
@@ -57,6 +63,8 @@ CodeIssMatch(rel) == rel \in IssSame
 MatchOK(d) == IF d.kind = "prm" THEN d.match = "exact" ELSE IssMatch(d.match)
 PkceOK(d) == d.kind = "asm" => d.pkce
 ScriptFree(d) == ~d.script
+\* the three document checks the property names
+DocOK(d) == MatchOK(d) /\ PkceOK(d) /\ ScriptFree(d)
 StateOK(s) == s = "equal"
 \* RFC 9207: a received iss must equal the issuer (simple string comparison: every other relation,
 \* "slash", "case" and "dot" included, fails); it must be present when support is advertised
@@ -93,6 +101,13 @@ ASMDocs == ASMFlagDocs \cup {"pkce_plain", "rev_http", "iss_other", "iss_sub", "
             "auth_http", "auth_js", "auth_data", "tok_http", "tok_js", "reg_http", "reg_js",
             "intro_http", "intro_js", "jwks_js", "doc_js", "rev_js"} \cup ASMIssDocs
 ASMOutcomes == ASM4xx \cup ASMHttpFail \cup ASMDocs
+\* what the well-known locations AFTER a fatal one hold ready (never read by the code as specified):
+\* "not there" in both 4xx flavours, or a valid document
+ASMRest == ASM4xx \cup {"good"}
+\* TRUE: the code as it is specified (a rejected document / a non-4xx failure ends the discovery).
+\* FALSE (OAuthFlow_wit.cfg only): discovery goes on to the next location and forgets the rejection; the
+\* design invariants must then fail (NoFallbackAfterRejected), which shows that they are not vacuous.
+ASMFatalStops == TRUE
 RegFlags == {"none", "ep"}
 
 RegConfigs == {"cimd", "pre", "dcr", "cimd_pre", "cimd_dcr", "pre_dcr", "all"}
@@ -181,11 +196,17 @@ VARIABLES pc,
           ares, tokq, result,
           ts,            \* "init" | "new"  (what TokenSource() returns)
           \* ghost / history
+          cause,         \* the fatal outcome at an ASM location while the later locations are still to be scripted
           requested,     \* set of [kind, cls] requested through the http.Client
           used,          \* set of documents trusted: [kind, match, pkce, script]
+          served,        \* set of documents the authorization server in use answered with: [kind, match, pkce, script]
+          predef,        \* the predefined endpoints of the authorization server were adopted
           exchanged, credsTo, failed
 
-vars == <<pc, ch, mcp, plist, idx, srv, asm, client, pre, ares, tokq, result, ts, requested, used, exchanged, credsTo, failed>>
+vars == <<pc, ch, mcp, plist, idx, srv, asm, client, pre, ares, tokq, result, ts, cause, requested, used, served, predef,
+          exchanged, credsTo, failed>>
+
+Aux == <<cause, served, predef>>
 
 NoAS == [cls |-> "-", path |-> FALSE]
 NoASM == [mode |-> "-", ip |-> FALSE, cimd |-> FALSE, reg |-> "none", auth |-> "-", tok |-> "-"]
@@ -193,14 +214,15 @@ NoRes == [state |-> "-", iss |-> "-"]
 
 Init == /\ pc = "setup" /\ ch = "-" /\ mcp = "-" /\ plist = <<>> /\ idx = 0 /\ srv = NoAS /\ asm = NoASM
         /\ client = "-" /\ pre = "-" /\ ares = NoRes /\ tokq = "-" /\ result = "-" /\ ts = "init"
-        /\ requested = {} /\ used = {} /\ exchanged = FALSE /\ credsTo = {} /\ failed = FALSE
+        /\ cause = "-" /\ requested = {} /\ used = {} /\ served = {} /\ predef = FALSE
+        /\ exchanged = FALSE /\ credsTo = {} /\ failed = FALSE
 
 Fail(r) == pc' = "done" /\ result' = r /\ failed' = TRUE
 
 Setup(c, m) ==
   /\ pc = "setup" /\ c \in Challenges /\ m \in McpURLs
   /\ ch' = c /\ mcp' = m /\ pc' = "parse"
-  /\ UNCHANGED <<plist, idx, srv, asm, client, pre, ares, tokq, result, ts, requested, used, exchanged, credsTo, failed>>
+  /\ UNCHANGED <<plist, idx, srv, asm, client, pre, ares, tokq, result, ts, requested, used, exchanged, credsTo, failed>> /\ UNCHANGED Aux
 
 \* oauthex.ParseWWWAuthenticate; 403 without insufficient_scope returns nil at once
 ParseChallenge ==
@@ -209,7 +231,7 @@ ParseChallenge ==
        [] ch = "other403" -> pc' = "done" /\ result' = "nil403" /\ UNCHANGED <<plist, idx, failed>>
        [] OTHER -> /\ plist' = (IF ChHdr(ch) # "none" THEN <<"hdr">> ELSE <<>>) \o <<"path", "root">>
                    /\ idx' = 1 /\ pc' = "prm" /\ UNCHANGED <<result, failed>>
-  /\ UNCHANGED <<ch, mcp, srv, asm, client, pre, ares, tokq, ts, requested, used, exchanged, credsTo>>
+  /\ UNCHANGED <<ch, mcp, srv, asm, client, pre, ares, tokq, ts, requested, used, exchanged, credsTo>> /\ UNCHANGED Aux
 
 \* getProtectedResourceMetadata: one candidate location; any error moves on to the next candidate
 FetchPRM(loc, o) ==
@@ -233,48 +255,68 @@ FetchPRM(loc, o) ==
                        /\ used' = used \cup {[kind |-> "prm", match |-> f.res, pkce |-> TRUE, script |-> PRMScript(f)]}
                        /\ pc' = "asm" /\ idx' = 1 /\ ch' = "-" /\ mcp' = "-"
                        /\ UNCHANGED <<result, failed>>
-  /\ UNCHANGED <<plist, asm, client, pre, ares, tokq, ts, exchanged, credsTo>>
+  /\ UNCHANGED <<plist, asm, client, pre, ares, tokq, ts, exchanged, credsTo>> /\ UNCHANGED Aux
 
 \* 2025-03-26 fallback: the root of the MCP server is the authorization server
 FallbackRootAS ==
   /\ pc = "prm" /\ idx > Len(plist)
   /\ srv' = [cls |-> mcp, path |-> FALSE]
   /\ pc' = "asm" /\ idx' = 1 /\ ch' = "-" /\ mcp' = "-"
-  /\ UNCHANGED <<plist, asm, client, pre, ares, tokq, result, ts, requested, used, exchanged, credsTo, failed>>
+  /\ UNCHANGED <<plist, asm, client, pre, ares, tokq, result, ts, requested, used, exchanged, credsTo, failed>> /\ UNCHANGED Aux
 
 ASMList == IF srv.path THEN <<"oauth_ins", "oidc_ins", "oidc_app">> ELSE <<"oauth", "oidc">>
 ASMLocs == {"oauth", "oidc", "oauth_ins", "oidc_ins", "oidc_app"}
 
-\* GetAuthServerMetadata / oauthex.GetAuthServerMeta: 4xx moves on, anything else is fatal
+\* GetAuthServerMetadata / oauthex.GetAuthServerMeta: 4xx moves on, anything else is fatal.
+\* A fatal outcome before the last location leaves the later locations unread: the environment scripts
+\* them in UnreadASM (pc "asmrest"; `cause` keeps the fatal outcome until then).
 FetchASM(loc, o, ip, cimd, rg) ==
   /\ pc = "asm" /\ idx <= Len(ASMList) /\ ASMList[idx] = loc
-  /\ IF ~Safe(srv.cls)
+  /\ LET fatal == IF ~ASMFatalStops
+                  THEN idx' = idx + 1 /\ UNCHANGED <<pc, asm, used, result, failed, cause>>      \* (witness configuration)
+                  ELSE IF idx < Len(ASMList)
+                  THEN /\ pc' = "asmrest" /\ cause' = o /\ result' = "asm" /\ failed' = TRUE
+                       /\ UNCHANGED <<idx, asm, used>>
+                  ELSE Fail("asm") /\ UNCHANGED <<idx, asm, used, cause>>
+     IN
+     IF ~Safe(srv.cls)
      THEN /\ o = "skip" /\ ip = FALSE /\ cimd = FALSE /\ rg = "ep"
-          /\ Fail("asm") /\ UNCHANGED <<idx, asm, used, requested>>
+          /\ Fail("asm") /\ UNCHANGED <<idx, asm, used, requested, cause, served>>
      ELSE /\ o \in ASMOutcomes
           /\ (o = "iss_prefix" => srv.path)                     \* a strict path prefix needs a path
           /\ IF o \in ASMFlagDocs THEN ip \in BOOLEAN /\ cimd \in BOOLEAN /\ rg \in RegFlags
              ELSE ip = FALSE /\ cimd = FALSE /\ rg = "ep"
           /\ requested' = requested \cup {[kind |-> "asm", cls |-> srv.cls]}
-          /\ IF o \in ASM4xx THEN idx' = idx + 1 /\ UNCHANGED <<pc, asm, used, result, failed>>
-             ELSE IF o \in ASMHttpFail THEN Fail("asm") /\ UNCHANGED <<idx, asm, used>>
-             ELSE LET f == ASMFacts(o, ip, cimd, rg) IN
-               IF \/ ~CodeIssMatch(f.iss)                                \* authutil.IssuersEqual
-                  \/ ~f.pkce                                              \* len(CodeChallengeMethodsSupported) == 0
-                  \/ ASMScript(f)                                         \* checkURLScheme on nine fields
-                  \/ \E c \in {f.auth, f.tok, f.reg, f.intro} : c # "none" /\ ~Safe(c)   \* checkHTTPSOrLoopback on four
-               THEN Fail("asm") /\ UNCHANGED <<idx, asm, used>>
-               ELSE /\ asm' = [mode |-> "doc", ip |-> f.ip, cimd |-> f.cimd, reg |-> f.reg, auth |-> f.auth, tok |-> f.tok]
-                    /\ used' = used \cup {[kind |-> "asm", match |-> f.iss, pkce |-> f.pkce, script |-> ASMScript(f)]}
-                    /\ pc' = "reg" /\ idx' = 0 /\ UNCHANGED <<result, failed>>
-  /\ UNCHANGED <<ch, mcp, plist, srv, client, pre, ares, tokq, ts, exchanged, credsTo>>
+          /\ IF o \in ASM4xx THEN idx' = idx + 1 /\ UNCHANGED <<pc, asm, used, result, failed, cause, served>>
+             ELSE IF o \in ASMHttpFail THEN fatal /\ UNCHANGED served
+             ELSE LET f == ASMFacts(o, ip, cimd, rg)
+                      d == [kind |-> "asm", match |-> f.iss, pkce |-> f.pkce, script |-> ASMScript(f)] IN
+               /\ served' = served \cup {d}
+               /\ IF \/ ~CodeIssMatch(f.iss)                                \* authutil.IssuersEqual
+                     \/ ~f.pkce                                              \* len(CodeChallengeMethodsSupported) == 0
+                     \/ ASMScript(f)                                         \* checkURLScheme on nine fields
+                     \/ \E c \in {f.auth, f.tok, f.reg, f.intro} : c # "none" /\ ~Safe(c)   \* checkHTTPSOrLoopback on four
+                  THEN fatal
+                  ELSE /\ asm' = [mode |-> "doc", ip |-> f.ip, cimd |-> f.cimd, reg |-> f.reg, auth |-> f.auth, tok |-> f.tok]
+                       /\ used' = used \cup {d}
+                       /\ pc' = "reg" /\ idx' = 0 /\ UNCHANGED <<result, failed, cause>>
+  /\ UNCHANGED <<ch, mcp, plist, srv, client, pre, ares, tokq, ts, predef, exchanged, credsTo>>
 
-\* 2025-03-26 fallback: predefined endpoints under the authorization server URL
+\* the environment's outcomes at the locations after a fatal one (o3 = "-": there is only one such location)
+UnreadASM(o2, o3) ==
+  /\ pc = "asmrest"
+  /\ o2 \in ASMRest
+  /\ o3 \in (IF Len(ASMList) - idx = 2 THEN ASMRest ELSE {"-"})
+  /\ pc' = "done" /\ cause' = "-"
+  /\ UNCHANGED <<ch, mcp, plist, idx, srv, asm, client, pre, ares, tokq, result, ts, requested, used, served, predef,
+                 exchanged, credsTo, failed>>
+
+\* 2025-03-26 fallback for servers without metadata: predefined endpoints under the authorization server URL
 PredefinedEndpoints ==
   /\ pc = "asm" /\ idx > Len(ASMList)
   /\ asm' = [mode |-> "predef", ip |-> FALSE, cimd |-> FALSE, reg |-> srv.cls, auth |-> srv.cls, tok |-> srv.cls]
-  /\ pc' = "reg" /\ idx' = 0
-  /\ UNCHANGED <<ch, mcp, plist, srv, client, pre, ares, tokq, result, ts, requested, used, exchanged, credsTo, failed>>
+  /\ pc' = "reg" /\ idx' = 0 /\ predef' = TRUE
+  /\ UNCHANGED <<ch, mcp, plist, srv, client, pre, ares, tokq, result, ts, cause, requested, used, served, exchanged, credsTo, failed>>
 
 \* "hostonly": the credentials name scheme://host of the authorization server without its path
 EffPre(p) == IF p = "hostonly" THEN (IF srv.path THEN "prefix" ELSE "exact") ELSE p
@@ -300,7 +342,7 @@ Register(rc, p, o) ==
           /\ IF o \in {"201", "200"} THEN client' = "dcr" /\ pre' = "-" /\ pc' = "code" /\ UNCHANGED <<result, failed>>
              ELSE Fail("dcr") /\ UNCHANGED <<client, pre>>
      ELSE o = "skip" /\ Fail("noreg") /\ UNCHANGED <<client, pre, requested>>
-  /\ UNCHANGED <<ch, mcp, plist, idx, ares, tokq, ts, used, exchanged, credsTo>>
+  /\ UNCHANGED <<ch, mcp, plist, idx, ares, tokq, ts, used, exchanged, credsTo>> /\ UNCHANGED Aux
 
 \* getAuthorizationCode: the authorization URL (with the client id) is handed to the fetcher
 GetCode(st, iss) ==
@@ -311,12 +353,12 @@ GetCode(st, iss) ==
      ELSE /\ st \in AuthStates /\ iss \in AuthIsses
           /\ ares' = [state |-> st, iss |-> iss] /\ pc' = "checkstate" /\ UNCHANGED <<result, failed>>
   /\ asm' = [asm EXCEPT !.auth = "-"]
-  /\ UNCHANGED <<ch, mcp, plist, idx, srv, client, pre, tokq, ts, requested, used, exchanged>>
+  /\ UNCHANGED <<ch, mcp, plist, idx, srv, client, pre, tokq, ts, requested, used, exchanged>> /\ UNCHANGED Aux
 
 CheckState ==
   /\ pc = "checkstate"
   /\ IF ares.state # "equal" THEN Fail("state") ELSE pc' = "checkiss" /\ UNCHANGED <<result, failed>>
-  /\ UNCHANGED <<ch, mcp, plist, idx, srv, asm, client, pre, ares, tokq, ts, requested, used, exchanged, credsTo>>
+  /\ UNCHANGED <<ch, mcp, plist, idx, srv, asm, client, pre, ares, tokq, ts, requested, used, exchanged, credsTo>> /\ UNCHANGED Aux
 
 \* validateIssuerResponse
 CheckIss ==
@@ -324,7 +366,7 @@ CheckIss ==
   /\ IF asm.ip
      THEN IF ares.iss = "absent" \/ ares.iss # "equal" THEN Fail("iss") ELSE pc' = "exchange" /\ UNCHANGED <<result, failed>>
      ELSE IF ares.iss # "absent" THEN Fail("iss") ELSE pc' = "exchange" /\ UNCHANGED <<result, failed>>
-  /\ UNCHANGED <<ch, mcp, plist, idx, srv, asm, client, pre, ares, tokq, ts, requested, used, exchanged, credsTo>>
+  /\ UNCHANGED <<ch, mcp, plist, idx, srv, asm, client, pre, ares, tokq, ts, requested, used, exchanged, credsTo>> /\ UNCHANGED Aux
 
 \* exchangeAuthorizationCode: the token request
 Exchange(o) ==
@@ -334,7 +376,7 @@ Exchange(o) ==
   /\ credsTo' = IF client = "prereg" THEN credsTo \cup {pre} ELSE credsTo
   /\ IF o \in {"good", "expiring"} THEN tokq' = o /\ pc' = "install" /\ UNCHANGED <<result, failed>>
      ELSE Fail("exchange") /\ UNCHANGED tokq
-  /\ UNCHANGED <<ch, mcp, plist, idx, srv, asm, client, pre, ares, ts, used>>
+  /\ UNCHANGED <<ch, mcp, plist, idx, srv, asm, client, pre, ares, ts, used>> /\ UNCHANGED Aux
 
 \* h.tokenSource = ts; then updateGrantedScopes asks the new source for its token
 Install ==
@@ -342,7 +384,7 @@ Install ==
   /\ ts' = "new"
   /\ result' = IF tokq = "expiring" THEN "post" ELSE "ok"
   /\ pc' = "done"
-  /\ UNCHANGED <<ch, mcp, plist, idx, srv, asm, client, pre, ares, tokq, requested, used, exchanged, credsTo, failed>>
+  /\ UNCHANGED <<ch, mcp, plist, idx, srv, asm, client, pre, ares, tokq, requested, used, exchanged, credsTo, failed>> /\ UNCHANGED Aux
 
 \* exports the outcome in the edge label; everything but the ghosts is reset
 Finish(r, changed) ==
@@ -350,7 +392,7 @@ Finish(r, changed) ==
   /\ pc' = "halt"
   /\ ch' = "-" /\ mcp' = "-" /\ plist' = <<>> /\ idx' = 0 /\ srv' = NoAS /\ client' = "-" /\ pre' = "-" /\ tokq' = "-"
   /\ asm' = [NoASM EXCEPT !.ip = asm.ip]
-  /\ UNCHANGED <<ares, result, ts, requested, used, exchanged, credsTo, failed>>
+  /\ UNCHANGED <<ares, result, ts, requested, used, exchanged, credsTo, failed>> /\ UNCHANGED Aux
 
 Results == {"ok", "nil403", "parse", "no_as", "asm", "prereg", "dcr", "noreg", "fetcher", "state", "iss", "exchange", "post"}
 
@@ -361,6 +403,7 @@ Next ==
   \/ FallbackRootAS
   \/ \E loc \in ASMLocs, o \in ASMOutcomes \cup {"skip"}, ip \in BOOLEAN, cimd \in BOOLEAN, rg \in RegFlags :
         FetchASM(loc, o, ip, cimd, rg)
+  \/ \E o2 \in ASMRest, o3 \in ASMRest \cup {"-"} : UnreadASM(o2, o3)
   \/ PredefinedEndpoints
   \/ \E rc \in RegConfigs, p \in PreRels \cup {"na"}, o \in DCROutcomes \cup {"skip"} : Register(rc, p, o)
   \/ \E st \in AuthStates \cup {"ferr"}, iss \in AuthIsses \cup {"-"} : GetCode(st, iss)
@@ -381,11 +424,15 @@ PKCERequired == \A d \in used : PkceOK(d)
 NoScriptSchemes == \A d \in used : ScriptFree(d)
 ExchangeOnlyIfStateAndIss == exchanged => StateOK(ares.state) /\ IssOK(ares.iss, asm.ip)
 PreregBoundToIssuer == \A p \in credsTo : PreOK(p)
+\* the "no metadata" fallback is for a server WITHOUT metadata: every document the server did answer with at one of
+\* its well-known locations is metadata the decision rests on, and is used only if it passes the three document checks
+NoFallbackAfterRejected == predef => \A d \in served : DocOK(d)
 NoTokenAfterFailure == [][failed => ts' = ts]_vars
 \* state form of the same clause: a new token is there only if every check passed
 TokenOnlyIfChecksPassed ==
   ts = "new" => /\ ~failed /\ exchanged /\ StateOK(ares.state) /\ IssOK(ares.iss, asm.ip)
-                /\ \A d \in used : MatchOK(d) /\ PkceOK(d) /\ ScriptFree(d)
+                /\ \A d \in used : DocOK(d)
+                /\ (predef => \A d \in served : DocOK(d))
                 /\ \A p \in credsTo : PreOK(p)
 ResultKnown == pc \in {"done", "halt"} => result \in Results
 
